@@ -56,6 +56,58 @@ func (sc *styleCase) css() string {
 	return strings.Join(parts, " ")
 }
 
+// potentialLimit: the implementation builds symbolic and additive representations as whole
+// strings. Should it (wrongly) run such an algorithm on a value that the reference sends to
+// the fallback style (out of range, not representable), a 2^31 value would make it allocate
+// gigabytes. A value is therefore not run at all in an environment where some style
+// reachable from the rendered one (through extends and fallback links) could produce more
+// than potentialLimit symbols for it if its range were ignored.
+const potentialLimit = 5_000_000
+
+func potentialSymbols(env refEnv, target string, v int) int {
+	if v < 0 {
+		v = -v
+	}
+	seen := map[string]bool{}
+	todo := []string{target}
+	worst := 0
+	for len(todo) > 0 {
+		name := todo[len(todo)-1]
+		todo = todo[:len(todo)-1]
+		if seen[name] {
+			continue
+		}
+		seen[name] = true
+		s := env.lookup(name)
+		if s == nil {
+			continue
+		}
+		n := 0
+		switch s.System {
+		case "symbolic":
+			if len(s.Symbols) > 0 {
+				n = v/len(s.Symbols) + 1
+			}
+		case "additive":
+			for _, t := range s.Additive {
+				if t.W > 0 {
+					n = v / t.W
+					break
+				}
+			}
+		case "extends":
+			todo = append(todo, s.Extends)
+		}
+		if n > worst {
+			worst = n
+		}
+		if s.Fallback != "" {
+			todo = append(todo, s.Fallback)
+		}
+	}
+	return worst
+}
+
 // maxE2E: CSS numbers are held as float32 by the parser of the implementation, integers
 // beyond 2^24 are not exactly representable in a style sheet; they are explored by the
 // direct calls only.
@@ -331,6 +383,9 @@ func (c *check) runStyleCase(ctx *engine.Ctx, sc *styleCase, values []int) {
 		r, tr := env.generate(v, sc.target)
 		m, _ := env.marker(v, sc.target)
 		feats := styleFeatures(env, sc.target, v, tr, sc.extra)
+		if potentialSymbols(env, sc.target, v) > potentialLimit {
+			tr.Huge = true
+		}
 		if sc.withCounters {
 			r = r + "~" + r
 		}
@@ -348,7 +403,7 @@ func (c *check) runStyleCase(ctx *engine.Ctx, sc *styleCase, values []int) {
 			e := &exps[i]
 			if e.tr.Huge {
 				ctx.Case(false, "huge")
-				ctx.Count("not-run:representation-longer-than-20000-symbols", 1)
+				ctx.Count("not-run:representation-or-potential-too-long", 1)
 				continue
 			}
 			if e.tr.Long {
